@@ -37,10 +37,18 @@ func init() {
 			"ordered trace, condition class, mutex state (TryLock from Go) and stream state (os.File closed, from Go) are compared with ref/eval; " +
 			"a failing case is re-run on the shorter nesting [target, sub-chain below the blamed form] so that its signature names the smallest " +
 			"nesting that shows the failure, and a lost return-from / return / go that crosses several forms is re-run on [target, one crossed form] " +
-			"for each of them so that the signature names the form that loses it (through=...); a case is non-trivial when a non-normal exit crosses at least one intervening form on the way to its target",
+			"for each of them so that the signature names the form that loses it (through=...); a case is non-trivial when a non-normal exit crosses at least one intervening form on the way to its target. " +
+			"Round 8 (r8kinds.go, kinds of the same nestings, enumerated under spec prefixes of their own): hof| the slot in the body of a function that is called by a built-in caller " +
+			"(mapcar ... sort, maphash, format ~/fn/, funcall / apply of #'mapcar) or by a function / method body that is not lexically around it, as a lambda on the 1st / 2nd / 3rd call or as a named function passed as #'name: " +
+			"the exit must reach the lexically matching block or tag, no call is made after it, every cleanup in between runs once (how often and in which order a caller calls when nothing leaves is not compared: C14). " +
+			"val| the slot in a position that is NOT a body position (value form of the / time / nth-value / multiple-value-list, -call, -setq / values / setq / setf, the 2nd of three arguments or init forms, a test or key form, the header forms of dolist / dotimes / do / do*, the value form of a return-from, the acquiring forms of with- forms): " +
+			"the statement speaks of body positions, so these are judged ONLY for: no host fault, every cleanup exactly once and in order, control reaches the target and nothing the exit abandons runs (forms evaluated in front of the slot in the same form are left out of the comparison). " +
+			"rel| with-open-file :output / :io with every :if-exists mode slip implements, the stream kept and written to before and behind the slot; after the program: file closed (os.File, from Go), open-stream-p nil, a later write fails and changes nothing, the file holds exactly what was written while the stream was open; with-mutex-lock: TryLock from Go succeeds. " +
+			"cls| 16 further error classes (8 the interpreter signals itself, 8 the program signals with make-condition + panic incl. two define-condition classes of its own) and warn: class AND whole hierarchy at the top equal those of the bare form. " +
+			"rt| an exit evaluated in another routine (run): no host fault, the starting routine's block is not left, the routine's cleanup runs once",
 		Assumptions: []string{
 			"ref/eval is the oracle (lexical targets by construction; exits as Go panics)",
-			"exits (return-from / return / go) are placed in body positions only (never in argument, test or binding-init positions); the cleanup forms of unwind-protect are body positions (positions cn/ce/cr/cg); errors are also placed inside cleanup forms (positions pe/pd/pu/pt)",
+			"chains of the earlier rounds: exits (return-from / return / go) are placed in body positions only (the val| family of round 8 has the argument, test, binding-init and header positions); the cleanup forms of unwind-protect are body positions (positions cn/ce/cr/cg); errors are also placed inside cleanup forms (positions pe/pd/pu/pt)",
 			"an exit that leaves a cleanup form takes the place of whatever the protected form had started (an error, a return-from, a go): the newer exit reaches its target, the error or older exit is dropped, the cleanups further out still run once each (Common Lisp 5.2; the target of the newer exit is always outside of the abandoned one); the cleanup forms behind the exit do not run",
 			"a defun is not spliced in front of the slot where every form is a test or a value (and, or, prog1, prog2, multiple-value-prog1) nor into a loop body (slip resolves the forms of a loop before the first pass; definition order is C08's subject)",
 			"the body of a flavors method has no block of its own (none is documented); the body of a method of a generic function is in a block of the function's name (Common Lisp), which return-from-function uses",
@@ -51,7 +59,11 @@ func init() {
 			"tagbody tags are integers in the main alphabet; symbol tags are the separate kind tagbody-sym, used only in the complete depths, and while the build under test evaluates a fallen-through symbol tag (probed once per process) programs holding one get coarse signatures (ctx=tagbody-sym ...)",
 			"a defun context is defined at top level (a lexical boundary: outer blocks and tags are not visible in it); defun-in is defined inside its parent's body and lambda is called in place, so both see the enclosing blocks and tags",
 			"the kind lambda of the first rounds takes one dummy argument ((funcall f) without one was rejected by slip then, a C04 finding repaired since); the closure kinds funcall-lambda, lambda-form, apply-lambda and let-lambda (round 6) are anonymous functions called in place by funcall / as the head of the form / by apply / through a let variable; all of them are transparent: every block, tag and function block around the call is visible in the body",
-			"a closure passed to a built-in higher-order function (mapcar, mapc, every, some, reduce, sort, maphash, ...) is not a body position and not enumerated (observed: slip treats the exit marker as the function's value there)",
+			"round 8: the body of a function is a body position whoever calls the function: an exit there must reach the lexically matching block or tag also when a built-in (mapcar, every, reduce, sort, maphash, format ~/fn/ ...) made the call; what a caller returns and how often / in which order it calls when nothing leaves it is C14's subject (the calling form is followed by a marker that gives the value; calls after the one that ran the slot are compared only when the caller is abandoned)",
+			"round 8: release is demanded for what the statement names (with-mutex-lock, with-open-file in every direction / :if-exists mode); with-open-stream, with-output-to-string, with-input-from-string, with-input-from-octets, with-zip-reader, with-zip-writer, with-slots, with-standard-io-syntax, recover are checked for control flow only: slip documents no release for them (with-open-stream does not close its stream on any path; with-zip-writer finishes the gzip stream on every path but an error; with-zip-reader closes by defer)",
+			"round 8: a (return) in a header form of dolist / dotimes / do / do* / prog (list, count, init, step, end-test, result, binding) is not enumerated across that form: which nil block it belongs to is not this property's question; return-from a named block and go are",
+			"round 8: a return-from out of a named function that mapcan / mapcon called is not enumerated (they need a list as the function's value)",
+			"round 8: slip has no handler-bind / handler-case / signal / flet / labels / with-output-to-octets; error takes a format string only, so conditions of a chosen class are signalled with (panic (make-condition 'class ...)); run evaluates one form in another goroutine and documents nothing about exits",
 			"re-entrant exits (reentrant.go): 7 exit kinds x recursion from the cleanup form (direct / through a helper) x with and without a completed warm-up call x recursion depth 1..2 (1..4 thorough): the same exit form runs again while the outer activation's exit is still in flight",
 		},
 		Enumerate: enumerate,
@@ -63,9 +75,9 @@ func init() {
 			"mutex-checked", "stream-checked", "nontrivial-passed",
 			"cleanup-fails-on-normal-exit", "cleanup-fails-on-return", "cleanup-fails-on-go", "cleanup-fails-on-error",
 			"cleanup-error-handled", "cleanup-error-unhandled", "cleanup-error-through-outer-cleanup", "reentrant-exit-in-flight", "go-to-a-tag-of-a-loop-body",
-		}, requiredNew()...),
-		Bound:         bound,
-		Selftest:      selftest,
+		}, append(requiredNew(), requiredR8()...)...),
+		Bound:         func(tier string) string { return bound(tier) + boundR8(tier) },
+		Selftest:      selftestAll,
 		CaseDeadlineS: 8,
 	})
 }
@@ -111,7 +123,7 @@ var oldKinds = []kindInfo{
 }
 
 // kinds: the alphabet of the first rounds followed by the forms added in round 6 (newkinds.go)
-var kinds = append(append([]kindInfo(nil), oldKinds...), newKinds...)
+var kinds = append(append(append([]kindInfo(nil), oldKinds...), newKinds...), r8Kinds...)
 
 var kindByName = func() map[string]*kindInfo {
 	m := map[string]*kindInfo{}
@@ -123,6 +135,9 @@ var kindByName = func() map[string]*kindInfo {
 
 // canonical slot position of a kind (used for the outer levels of restricted depths)
 func canonPos(k *kindInfo) string {
+	if c := r8Canon[k.name]; c != "" {
+		return c
+	}
 	switch k.positions[0] {
 	case "p":
 		return "p"
@@ -149,6 +164,7 @@ type ctx struct {
 type program struct {
 	ctxs []ctx
 	exit string
+	fam  string // spec prefix of the round-8 families (hof val rel cls), "" for the chains of the earlier rounds
 }
 
 var errorExits = []string{"err-error", "err-div", "err-unbound", "err-type"}
@@ -179,7 +195,7 @@ func isBoundary(k *kindInfo) bool {
 
 // hasFnBlock: function bodies that are in a block of the function's name.
 func hasFnBlock(k *kindInfo) bool {
-	return k.name == "defun" || k.name == "defun-in" || k.name == "generic-method"
+	return k.name == "defun" || k.name == "defun-in" || k.name == "generic-method" || isNamedHOF(k)
 }
 
 // cleanupErrors maps the position of an unwind-protect to the error exit its cleanup signals.
@@ -256,13 +272,19 @@ func fnIndex(ctxs []ctx) int {
 // validNesting: a defun-in needs a parent with a statement body to be spliced into.
 func validNesting(ctxs []ctx) bool {
 	for i, c := range ctxs {
-		if c.kind.name != "defun-in" {
+		if c.kind.name != "defun-in" && !isNamedHOF(c.kind) {
 			continue
 		}
 		if i == 0 {
+			if isNamedHOF(c.kind) {
+				continue // defined at top level in front of the main form
+			}
 			return false
 		}
 		par := ctxs[i-1]
+		if isHOF(par.kind) || isValueKind(par.kind) {
+			continue // the definition goes in front of the slot inside the called function / into a progn around the slot
+		}
 		if par.pos != "f" && par.pos != "m" && par.pos != "l" {
 			return false
 		}
@@ -323,7 +345,7 @@ func target(p *program) (idx int, sig string) {
 		return -3
 	}
 	switch {
-	case p.exit == "norm":
+	case p.exit == "norm" || p.exit == "warn":
 		return -2, "normal"
 	case p.exit == "rf-a":
 		return find(func(k *kindInfo) bool { return k.name == "block-a" }, b), "return-from"
@@ -348,11 +370,7 @@ func target(p *program) (idx int, sig string) {
 		}
 		return n, "go-backward"
 	case strings.HasPrefix(p.exit, "err-"):
-		ok := false
-		for _, e := range errorExits {
-			ok = ok || e == p.exit
-		}
-		if !ok {
+		if abstractClass[p.exit] == "" {
 			return -3, ""
 		}
 		i := find(func(k *kindInfo) bool { return k.name == "ignore-errors" || k.name == "recover" }, -1)
@@ -366,6 +384,10 @@ func target(p *program) (idx int, sig string) {
 
 func (p *program) spec() string {
 	var b strings.Builder
+	if p.fam != "" {
+		b.WriteString(p.fam)
+		b.WriteByte('|')
+	}
 	for i, c := range p.ctxs {
 		if 0 < i {
 			b.WriteByte('/')
@@ -385,6 +407,10 @@ func parseSpec(spec string) (*program, error) {
 		return nil, fmt.Errorf("no exit in spec")
 	}
 	p := &program{exit: spec[bang+1:]}
+	if bar := strings.IndexByte(spec, '|'); 0 <= bar && bar < bang {
+		p.fam = spec[:bar]
+		spec, bang = spec[bar+1:], bang-bar-1
+	}
 	if 0 < bang {
 		for _, part := range strings.Split(spec[:bang], "/") {
 			dot := strings.LastIndexByte(part, '.')
@@ -465,9 +491,23 @@ func reactsToError(ctxs []ctx) bool {
 }
 
 func enumerate(tier string, emit func(string)) {
+	if only := os.Getenv("C07_DEV_ONLY"); only != "" {
+		// development aid (never set by the registered commands): only the families with these spec prefixes
+		all := emit
+		emit = func(spec string) {
+			for _, pre := range strings.Split(only, ",") {
+				if strings.HasPrefix(spec, pre+"|") {
+					all(spec)
+					return
+				}
+			}
+		}
+	}
 	enumReentrant(tier, emit)
 	enumLoopTags(emit)
+	enumRoutines(emit)
 	enumPrograms(tier, func(p *program) { emit(p.spec()) })
+	enumR8(tier, func(p *program) { emit(p.spec()) })
 }
 
 func enumPrograms(tier string, emit func(*program)) {
@@ -509,6 +549,9 @@ func enumPrograms(tier string, emit func(*program)) {
 			}
 			if !withNew && newKindSet[k.name] {
 				continue
+			}
+			if r8KindSet[k.name] {
+				continue // the kinds of round 8 have an enumeration of their own (r8enum.go)
 			}
 			outer := outerPositions(k)
 			if withNew && k.name == "unwind-protect" {
@@ -683,14 +726,24 @@ func errorForm(e string) eval.Node {
 	case "err-type":
 		return eval.L(eval.Sym("car"), eval.Int(5))
 	}
+	if f := r8ErrorForm(e); f != nil {
+		return f
+	}
 	panic("unknown error exit " + e)
 }
 
-var abstractClass = map[string]string{"err-error": "error", "err-div": "division-by-zero", "err-unbound": "unbound-variable", "err-type": "type-error"}
+var abstractClass = func() map[string]string {
+	m := map[string]string{"err-error": "error", "err-div": "division-by-zero", "err-unbound": "unbound-variable", "err-type": "type-error"}
+	for _, e := range r8Errors {
+		m[e.name] = e.class
+	}
+	return m
+}()
 
 var (
 	origOnce    sync.Once
 	origClasses map[string]string // abstract class -> the class slip gives the bare error form at top level
+	origHiers   map[string]string // ... and the whole class hierarchy the top level sees
 	origProblem string
 )
 
@@ -699,14 +752,22 @@ var (
 // once per process; a pure function of the build under test).
 func originalClass(abstract string) (string, string) {
 	origOnce.Do(func() {
-		origClasses = map[string]string{}
-		for _, e := range errorExits {
+		origClasses, origHiers = map[string]string{}, map[string]string{}
+		if origProblem = prepareProcess(); origProblem != "" {
+			return
+		}
+		for _, e := range allErrorExits() {
 			_, berr := lisp.Eval(eval.Render(errorForm(e)))
 			if berr == nil || berr.Class == "" || berr.GoFault {
 				origProblem = fmt.Sprintf("%s alone gave %v", eval.Render(errorForm(e)), berr)
 				return
 			}
-			origClasses[abstractClass[e]] = berr.Class
+			a := abstractClass[e]
+			if prev, seen := origClasses[a]; seen && (prev != berr.Class || origHiers[a] != strings.Join(berr.Hier, ">")) {
+				origProblem = fmt.Sprintf("two error forms of the abstract class %s surface differently: %s and %s", a, prev, berr.Class)
+				return
+			}
+			origClasses[a], origHiers[a] = berr.Class, strings.Join(berr.Hier, ">")
 		}
 	})
 	return origClasses[abstract], origProblem
@@ -718,6 +779,8 @@ func (b *built) exitNode() eval.Node {
 	switch p.exit {
 	case "norm":
 		return b.mark(n, "x-normal", true)
+	case "warn": // (warn ..) writes a warning and returns: control carries on
+		return eval.L(eval.Sym("progn"), eval.L(eval.Sym("warn"), eval.Str("c07 ~a"), eval.Int(1)), b.mark(n, "x-normal", true))
 	case "rf-a":
 		return eval.L(eval.Sym("return-from"), eval.Sym("a"), b.exitValueForm())
 	case "rf-b":
@@ -726,7 +789,8 @@ func (b *built) exitNode() eval.Node {
 		return eval.L(eval.Sym("return"), b.exitValueForm())
 	case "rf-fn":
 		return eval.L(eval.Sym("return-from"), eval.Sym(b.fnName(fnIndex(p.ctxs))), b.exitValueForm())
-	case "err-error", "err-div", "err-unbound", "err-type":
+	}
+	if abstractClass[p.exit] != "" {
 		return errorForm(p.exit)
 	}
 	t, sig := target(p)
@@ -879,6 +943,9 @@ func (b *built) build(level int) eval.Node {
 	if n := b.buildNew(level); n != nil {
 		return n
 	}
+	if n := b.buildR8(level); n != nil {
+		return n
+	}
 	panic("unknown kind " + c.kind.name)
 }
 
@@ -898,6 +965,8 @@ func scratch() string {
 func buildProgram(p *program, unique string) *built {
 	b := &built{p: p, unique: unique, path: filepath.Join(scratch(), "in.txt")}
 	main := b.build(0)
+	b.forms = append(b.forms, b.pending...) // a named function passed to a caller at the outermost level
+	b.pending = nil
 	b.forms = append(b.forms, main)
 	return b
 }
@@ -905,10 +974,12 @@ func buildProgram(p *program, unique string) *built {
 // ---------------------------------------------------------------- reference run
 
 type expectation struct {
-	out        eval.Outcome
-	mutexHeld  []bool // per level
-	streamOpen bool
-	streamMade map[string]bool // with-open-file variables whose body was entered
+	out         eval.Outcome
+	mutexHeld   []bool // per level
+	streamOpen  bool
+	streamMade  map[string]bool // with-open-file variables whose body was entered
+	streams     map[string][]*eval.Stream
+	streamOrder []*eval.Stream
 }
 
 func runRef(b *built, m eval.Mutations) expectation {
@@ -922,20 +993,30 @@ func runRef(b *built, m eval.Mutations) expectation {
 		in.SetGlobal(string(lv("mx", i)), mx[i])
 	}
 	setupRef(in, b.p)
+	setupRefR8(in, b.p)
 	ex := expectation{out: in.Run(b.forms), mutexHeld: make([]bool, n)}
 	for i := range mx {
 		ex.mutexHeld[i] = mx[i].Locked
 	}
 	ex.streamMade = map[string]bool{}
+	ex.streams = map[string][]*eval.Stream{}
 	for _, s := range in.Streams {
 		ex.streamOpen = ex.streamOpen || s.Open
 		ex.streamMade[s.Name] = true
+		ex.streams[s.Name] = append(ex.streams[s.Name], s) // in the order they were opened
+		ex.streamOrder = append(ex.streamOrder, s)
 	}
 	return ex
 }
 
 func (ex *expectation) digest() string {
-	return fmt.Sprintf("%s|%s|%s|%v|%v", eval.Show(ex.out.Value), ex.out.ErrClass, strings.Join(ex.out.Trace, ","), ex.mutexHeld, ex.streamOpen)
+	written := ""
+	for _, l := range ex.streamOrder {
+		if l.Written != "" {
+			written += l.Name + "=" + l.Written + ";"
+		}
+	}
+	return fmt.Sprintf("%s|%s|%s|%v|%v|%s", eval.Show(ex.out.Value), ex.out.ErrClass, strings.Join(ex.out.Trace, ","), ex.mutexHeld, ex.streamOpen, written)
 }
 
 // ---------------------------------------------------------------- exec
@@ -952,12 +1033,19 @@ func exec(spec string) (res engine.Result) {
 	if strings.HasPrefix(spec, "lt|") {
 		return execLoopTags(spec)
 	}
+	if strings.HasPrefix(spec, "rt|") {
+		return execRoutine(spec)
+	}
 	p, perr := parseSpec(spec)
 	if perr != nil {
 		res.Fail("harness:bad-spec", spec+": "+perr.Error())
 		return
 	}
-	return execProgram(p, true, true)
+	res = execProgram(p, true, true)
+	if p.fam != "" {
+		coarsenR8(p.fam, &res)
+	}
+	return
 }
 
 // execProgram runs one program on slip and judges it. With reduce set, a
@@ -982,11 +1070,14 @@ func execProgram(p *program, reduce, resources bool) (res engine.Result) {
 
 	// vacuity counters and the non-triviality rule
 	crossed := 0
-	if p.exit != "norm" {
+	if p.exit != "norm" && p.exit != "warn" {
 		crossed = n - 1 - tgt // contexts strictly inside the target
 		if tgt == -1 {
 			crossed = n
 		}
+	}
+	if p.exit == "warn" {
+		res.Hit("warn-carries-on")
 	}
 	if 1 <= crossed {
 		res.Nontrivial = true
@@ -995,7 +1086,7 @@ func execProgram(p *program, reduce, resources bool) (res engine.Result) {
 	if 2 <= crossed {
 		res.Hit("exit-crossed>=2-forms")
 	}
-	if p.exit != "norm" {
+	if p.exit != "norm" && p.exit != "warn" {
 		ups := 0
 		for i := n - 1; tgt < i && 0 <= i; i-- {
 			switch p.ctxs[i].kind.name {
@@ -1024,6 +1115,7 @@ func execProgram(p *program, reduce, resources bool) (res engine.Result) {
 			res.Hit("cleanup-nested>=2")
 		}
 		countNew(&res, p, tgt, exitSig)
+		countR8(&res, p, tgt, exitSig)
 		switch exitSig {
 		case "go-forward":
 			res.Hit("go-forward")
@@ -1108,6 +1200,10 @@ func execProgram(p *program, reduce, resources bool) (res engine.Result) {
 		res.Fail("harness:environment", problem)
 		return
 	}
+	if problem := setupSlipR8(scope, b); problem != "" {
+		res.Fail("harness:environment", problem)
+		return
+	}
 	// a program that does not come to an end (an exit dropped inside a loop) is stopped by a step budget: the
 	// reference needs a few hundred evaluations for the largest program of the thorough tier
 	steps := 0
@@ -1139,6 +1235,54 @@ func execProgram(p *program, reduce, resources bool) (res engine.Result) {
 
 	o := &observation{val: val, err: err, trace: trace}
 	blamed := judge(&res, b, &ex, o, tgt, exitSig, okClasses, src)
+	// the resources are examined before a failing case is re-run on shorter nestings (those runs use the same files)
+	var rres engine.Result
+	if resources {
+		judgeFailed := 0 < len(res.Failures)
+		// resources, whatever happened above
+		for i := 0; i < n; i++ {
+			switch p.ctxs[i].kind.name {
+			case "with-mutex-lock", "v-mutex-form":
+				m, _ := scope.Get(slip.Symbol(lv("mx", i))).(*gi.Mutex)
+				if m == nil {
+					rres.Fail("harness:mutex-variable-lost", src)
+					continue
+				}
+				rres.Hit("mutex-checked")
+				free := (*sync.Mutex)(m).TryLock()
+				if free {
+					(*sync.Mutex)(m).Unlock()
+				}
+				if free == ex.mutexHeld[i] {
+					rres.Fail(resourceSig(p, exitSig, tgt, "mutex-held"),
+						fmt.Sprintf("%s\nmutex of with-mutex-lock at level %d: free=%v, the reference says held=%v", src, i+1, free, ex.mutexHeld[i]))
+				} else if free {
+					rres.Hit("mutex-can-be-taken-again")
+				}
+			case "with-open-file", "v-wof-path", "wof-supersede", "wof-append", "wof-overwrite", "wof-rename", "wof-create", "wof-io":
+				fs, _ := scope.Get(slip.Symbol(lv("keep", i))).(*slip.FileStream)
+				if fs == nil {
+					// the body was never entered (that is compared through the trace); if the trace
+					// agreed with the reference and the reference did enter it, the capture is broken
+					if ex.streamMade[string(lv("fs", i))] && !judgeFailed && !coarseSig(p) {
+						rres.Fail("harness:stream-not-captured", src)
+					}
+					continue
+				}
+				rres.Hit("stream-checked")
+				_, serr := (*os.File)(fs).Stat()
+				closed := serr != nil && errors.Is(serr, os.ErrClosed)
+				checkRelease(&rres, b, &ex, scope, i, fs, closed, exitSig, tgt, src)
+				if !closed {
+					_ = (*os.File)(fs).Close()
+					if !ex.streamOpen {
+						rres.Fail(resourceSig(p, exitSig, tgt, "stream-open"),
+							fmt.Sprintf("%s\nstream of %s at level %d is still open after the program", src, p.ctxs[i].kind.name, i+1))
+					}
+				}
+			}
+		}
+	}
 	if reduce && 0 < len(res.Failures) {
 		// Name the smallest nesting that shows the failure: (a) a "continues" verdict on a form
 		// that merely contains the sub-chain holding the exit is retried without that form and
@@ -1174,45 +1318,10 @@ func execProgram(p *program, reduce, resources bool) (res engine.Result) {
 		res.Outcome = o.digest()
 		return
 	}
-
-	// resources, whatever happened above
-	for i := 0; i < n; i++ {
-		switch p.ctxs[i].kind.name {
-		case "with-mutex-lock":
-			m, _ := scope.Get(slip.Symbol(lv("mx", i))).(*gi.Mutex)
-			if m == nil {
-				res.Fail("harness:mutex-variable-lost", src)
-				continue
-			}
-			res.Hit("mutex-checked")
-			free := (*sync.Mutex)(m).TryLock()
-			if free {
-				(*sync.Mutex)(m).Unlock()
-			}
-			if free == ex.mutexHeld[i] {
-				res.Fail(resourceSig(p, exitSig, tgt, "mutex-held"),
-					fmt.Sprintf("%s\nmutex of with-mutex-lock at level %d: free=%v, the reference says held=%v", src, i+1, free, ex.mutexHeld[i]))
-			}
-		case "with-open-file":
-			fs, _ := scope.Get(slip.Symbol(lv("keep", i))).(*slip.FileStream)
-			if fs == nil {
-				// the body was never entered (that is compared through the trace); if the trace
-				// agreed with the reference and the reference did enter it, the capture is broken
-				if ex.streamMade[string(lv("fs", i))] && len(res.Failures) == 0 && !coarseSig(p) {
-					res.Fail("harness:stream-not-captured", src)
-				}
-				continue
-			}
-			res.Hit("stream-checked")
-			_, serr := (*os.File)(fs).Stat()
-			closed := serr != nil && errors.Is(serr, os.ErrClosed)
-			if !closed {
-				_ = (*os.File)(fs).Close()
-				if !ex.streamOpen {
-					res.Fail(resourceSig(p, exitSig, tgt, "stream-open"),
-						fmt.Sprintf("%s\nstream of with-open-file at level %d is still open after the program", src, i+1))
-				}
-			}
+	res.Failures = append(res.Failures, rres.Failures...)
+	for k, v := range rres.Counters {
+		for i := 0; i < v; i++ {
+			res.Hit(k)
 		}
 	}
 	res.Outcome = o.digest()
@@ -1472,21 +1581,22 @@ func judge(res *engine.Result, b *built, ex *expectation, o *observation, tgt in
 		fail("go-fault", "", detail("Go runtime fault: "+o.err.Message))
 		return
 	}
-	// first divergence of the traces
+	// first divergence of the traces (markers the statement does not speak about are left out of both: r8FilterTraces)
+	et, ot := r8FilterTraces(b, ex.out.Trace, o.trace, tgt)
 	i := 0
-	for i < len(ex.out.Trace) && i < len(o.trace) && ex.out.Trace[i] == o.trace[i] {
+	for i < len(et) && i < len(ot) && et[i] == ot[i] {
 		i++
 	}
-	if i < len(ex.out.Trace) || i < len(o.trace) {
+	if i < len(et) || i < len(ot) {
 		want := "end"
-		if i < len(ex.out.Trace) {
-			want = wantClass(b, ex.out.Trace[i], tgt)
+		if i < len(et) {
+			want = wantClass(b, et[i], tgt)
 		}
 		expectedErr := ex.out.ErrClass != "" && o.err != nil && oneOf(okClasses, o.err.Class)
 		switch {
-		case i < len(o.trace):
-			m, ok := markerInfo(b, o.trace[i])
-			what := fmt.Sprintf("trace diverges at position %d: marker %s ran, expected %s", i, o.trace[i], elemOr(ex.out.Trace, i, "the end"))
+		case i < len(ot):
+			m, ok := markerInfo(b, ot[i])
+			what := fmt.Sprintf("trace diverges at position %d: marker %s ran, expected %s", i, ot[i], elemOr(et, i, "the end"))
 			switch rel := relation(b, m, tgt); {
 			case !ok:
 				fail("trace", "got=unknown-marker", detail(what))
@@ -1494,7 +1604,7 @@ func judge(res *engine.Result, b *built, ex *expectation, o *observation, tgt in
 				// a form that the exit must abandon carried on (the target kind does not matter)
 				blamed = m.owner
 				at := ownerName(b, m) + "." + m.role
-				if again := seenBefore(o.trace[:i], o.trace[i]); again {
+				if again := seenBefore(ot[:i], ot[i]); again {
 					// an entry or cleanup marker that runs a second time: the loop around it
 					// (or the loop itself) started another iteration instead of passing the exit on
 					switch m.role {
@@ -1523,12 +1633,12 @@ func judge(res *engine.Result, b *built, ex *expectation, o *observation, tgt in
 		case o.err != nil && !expectedErr:
 			after := "start"
 			if 0 < i {
-				after = where(b, o.trace[i-1], tgt)
+				after = where(b, ot[i-1], tgt)
 			}
 			fail("unexpected-error", "class="+o.err.Class+" after="+after+" want="+want,
-				detail(fmt.Sprintf("the program stopped with %s after %d markers, expected marker %s next", o.err.Class, i, ex.out.Trace[i])))
+				detail(fmt.Sprintf("the program stopped with %s after %d markers, expected marker %s next", o.err.Class, i, et[i])))
 		default:
-			fail("skipped", "want="+want+" got=end", detail(fmt.Sprintf("trace ends after %d markers, expected marker %s next", i, ex.out.Trace[i])))
+			fail("skipped", "want="+want+" got=end", detail(fmt.Sprintf("trace ends after %d markers, expected marker %s next", i, et[i])))
 		}
 		return
 	}
@@ -1543,11 +1653,21 @@ func judge(res *engine.Result, b *built, ex *expectation, o *observation, tgt in
 	case ex.out.ErrClass != "" && o.err != nil:
 		if !oneOf(okClasses, o.err.Class) {
 			fail("condition-class", "want="+strings.Join(okClasses, "|")+" got="+o.err.Class, detail("the error surfaced with another condition class"))
+			return
+		}
+		// the whole hierarchy the top level sees is the one of the bare error form
+		okHier := false
+		got := strings.Join(o.err.Hier, ">")
+		for _, a := range append([]string{ex.out.ErrClass}, ex.out.ErrAlt...) {
+			okHier = okHier || origHiers[a] == got
+		}
+		if !okHier {
+			fail("condition-hierarchy", "class="+o.err.Class, detail("the error surfaced with the class hierarchy "+got+", the bare error form has "+origHiers[ex.out.ErrClass]))
 		}
 		return
 	}
 	// same trace, both returned: value
-	if eval.IsWild(ex.out.Value) {
+	if eval.HasWild(ex.out.Value) {
 		return
 	}
 	if got := lisp.Show(o.val); got != expVal {
@@ -1621,6 +1741,12 @@ func describeMarkers(b *built) string {
 }
 
 // ---------------------------------------------------------------- self-test (S6)
+
+func selftestAll(tier string) (killed, total int, notes []string) {
+	killed, total, notes = selftest(tier)
+	k2, t2, n2 := selftestR8(tier)
+	return killed + k2, total + t2, append(notes, n2...)
+}
 
 func selftest(tier string) (killed, total int, notes []string) {
 	type mutant struct {
